@@ -11,6 +11,8 @@ import (
 	"context"
 	"errors"
 	"fmt"
+	"io"
+	"log"
 	"os"
 	"strings"
 	"time"
@@ -127,6 +129,7 @@ type Input struct {
 	Global bool `json:"global,omitempty"` // Session{AllowGlobalUpdate: true}
 	QF     bool `json:"qf,omitempty"`     // Session{QueryFields: true}
 	Ctx    bool `json:"ctx,omitempty"`    // WithContext(ctx)
+	Log    string `json:"log,omitempty"`  // the handle's logger: "" (discard) | parameterized (logger.Config{ParameterizedQueries}) | custom (own ParamsFilter)
 	FailBegin bool `json:"fail_begin,omitempty"` // the database refuses the implicit Begin
 	Carry bool       `json:"carry,omitempty"` // the chain is on the handle before DryRun / ToSQL is switched on
 	C01  *cgen.Input `json:"c01,omitempty"`
@@ -456,7 +459,7 @@ func runCase(envs [2]env, in Input) Observed {
 	}
 	opts := func(db *gorm.DB, dryRun bool) *gorm.DB {
 		tx := db.Session(&gorm.Session{SkipDefaultTransaction: in.Skip, PrepareStmt: in.Prep, AllowGlobalUpdate: in.Global,
-			QueryFields: in.QF, DryRun: dryRun})
+			QueryFields: in.QF, DryRun: dryRun, Logger: loggerOf(in.Log)})
 		if in.Ctx {
 			tx = tx.WithContext(context.WithValue(context.Background(), ctxKey{}, "c19"))
 		}
@@ -485,6 +488,27 @@ func runCase(envs [2]env, in Input) Observed {
 }
 
 type ctxKey struct{}
+
+// redactLogger: a logger with its own ParamsFilter (hides every value from the trace).
+type redactLogger struct{ logger.Interface }
+
+func (redactLogger) ParamsFilter(ctx context.Context, sql string, params ...interface{}) (string, []interface{}) {
+	out := make([]interface{}, len(params))
+	for i := range out {
+		out[i] = "***"
+	}
+	return sql, out
+}
+
+func loggerOf(kind string) logger.Interface {
+	switch kind {
+	case "parameterized":
+		return logger.New(log.New(io.Discard, "", 0), logger.Config{LogLevel: logger.Silent, ParameterizedQueries: true})
+	case "custom":
+		return redactLogger{logger.Discard}
+	}
+	return nil
+}
 
 // ---- classification of the operation (input of the pipeline model) ----
 func classify(in Input) (kind, fin string, ret bool) {
@@ -639,7 +663,7 @@ func term(in Input, o Observed) string {
 }
 
 func shape(in Input) string {
-	s := in.Mode + fmt.Sprint(in.Skip, in.Carry, in.NoRet, in.Prep, in.Global, in.QF, in.Ctx, in.FailBegin) + "|"
+	s := in.Mode + fmt.Sprint(in.Skip, in.Carry, in.NoRet, in.Prep, in.Global, in.QF, in.Ctx, in.FailBegin, in.Log) + "|"
 	if in.X != nil {
 		return s + "x:" + in.X.K
 	}
@@ -665,7 +689,7 @@ func main() {
 			Kind: kind, Shape: shape(in), Nontriv: stmts >= 1 && len(o.Dry.Vars) >= 1})
 		out.Count("mode", in.Mode)
 		out.Count("skip_default_transaction", fmt.Sprint(in.Skip))
-		out.Count("options", fmt.Sprintf("noreturning=%v prepare=%v queryfields=%v ctx=%v global=%v failbegin=%v", in.NoRet, in.Prep, in.QF, in.Ctx, in.Global, in.FailBegin))
+		out.Count("options", fmt.Sprintf("noreturning=%v prepare=%v queryfields=%v ctx=%v global=%v failbegin=%v logger=%s", in.NoRet, in.Prep, in.QF, in.Ctx, in.Global, in.FailBegin, in.Log))
 		out.Count("state_carried_by_handle", fmt.Sprint(in.Carry || (in.X != nil && strings.HasPrefix(in.X.K, "carry_"))))
 		out.Count("operation", k+"/"+fin)
 		out.Count("dry_driver_calls", fmt.Sprint(len(o.Dry.Log)))
@@ -735,6 +759,7 @@ func main() {
 		in.Prep = r.Chance(1, 8)
 		in.QF = r.Chance(1, 8)
 		in.Ctx = r.Chance(1, 8)
+		in.Log = lib.Pick(r, []string{"", "", "", "parameterized", "custom"})
 		in.FailBegin = !in.Skip && in.Mode != "tosql" && r.Chance(1, 12)
 		kind := "main"
 		if r.Chance(2, 5) {
